@@ -229,8 +229,17 @@ def d(ctx):
     for r in raises:
         nid = cfg.loc1(r)
         gs = guard_exprs(cfg, nid)
-        more = any(pol and chain(resolve_local(fi.node, e)) is not None and (chain(e) or "").endswith(".more") for e, pol in gs)
-        eq_size = any((not pol) and isinstance(e, ast.Compare) and isinstance(e.ops[0], ast.Eq) and "len(%s.payload)" % nb in stmt_text(e) and stmt_text(e).endswith(".size") for e, pol in gs)
+        Ng = Normalizer(env=env)
+        more = any(pol and Ng.atom_name(e) == nb + ".opt.block1.more" for e, pol in gs if isinstance(e, (ast.Attribute, ast.Name)))
+        want_sz = Ng.cmp(ast.parse("len(%s.payload) == %s.opt.block1.size" % (nb, nb), mode="eval").body)
+        eq_size = False
+        for e, pol in gs:
+            try:
+                cn = Ng.cmp(e)
+            except NormError:
+                continue
+            if (cn == want_sz and not pol) or (cn == Ng.negate(want_sz) and pol):
+                eq_size = True
         ctx.ob("the size check applies to blocks with the more-flag and compares the payload length with the block size", more and eq_size, fi, r, detail="guards %s" % [(stmt_text(e), p) for e, p in gs])
         for a_ in apps:
             ctx.ob("the size check precedes the append", not cfg.exists_path(cfg.loc1(a_), nid), fi, r)
@@ -363,61 +372,87 @@ def f(ctx):
     xb = prog.func("message.Message._extract_block")
     num, szx, mb = params(xb)
     xcfg = cfg_of(xb)
-    size_defs = [n for n in walk_no_nested(xb.node) if isinstance(n, ast.Assign) and chain(n.targets[0]) == "size"]
-    start_defs = [n for n in walk_no_nested(xb.node) if isinstance(n, ast.Assign) and chain(n.targets[0]) == "start"]
-    nonbert_size = [n for n in size_defs if guarded_by(xcfg, xcfg.loc1(n), "%s == 7" % szx, False)]
+    # roles are identified structurally, not by name: the payload slice self.payload[S:E] gives the start and end
+    # locals, the option tuple (number, M, size_exp) gives the more local, and the non-BERT start definition
+    # `number * X` gives the size local
+    sl = [n for n in walk_no_nested(xb.node) if isinstance(n, ast.Subscript) and chain(n.value) == "self.payload" and isinstance(n.slice, ast.Slice) and isinstance(n.slice.lower, ast.Name) and isinstance(n.slice.upper, ast.Name)]
+    ctx.need(len(sl) == 1, "_extract_block: the payload slice self.payload[start:end] was not found")
+    S, E = sl[0].slice.lower.id, sl[0].slice.upper.id
+    start_defs = [n for n in writes_to_name(xb.node, S) if isinstance(n, ast.Assign)]
     nonbert_start = [n for n in start_defs if guarded_by(xcfg, xcfg.loc1(n), "%s == 7" % szx, False)]
-    ctx.need(len(nonbert_size) == 1 and len(nonbert_start) == 1, "_extract_block: non-BERT size/start definitions not found")
+    ctx.need(len(nonbert_start) == 1, "_extract_block: non-BERT start definition not found")
+    mb_ = match("%s * $x" % num, nonbert_start[0].value) or match("$x * %s" % num, nonbert_start[0].value)
     Nn = Normalizer()
-    size_p = Nn.poly(nonbert_size[0].value)
-    ctx.ob("block size is 2**(SZX+4)", size_p == Nn.poly(ast.parse("2**(%s+4)" % szx, mode="eval").body), xb, nonbert_size[0], detail=repr(size_p))
-    st_p = Normalizer(penv={"size": size_p}).poly(nonbert_start[0].value)
-    ctx.ob("block offset is NUM * size", st_p == Poly.atom(num) * size_p, xb, nonbert_start[0], detail=repr(st_p))
+    if mb_ is not None and isinstance(mb_["x"], ast.Name):
+        Z = mb_["x"].id
+        size_defs = [n for n in writes_to_name(xb.node, Z) if isinstance(n, ast.Assign)]
+        nonbert_size = [n for n in size_defs if guarded_by(xcfg, xcfg.loc1(n), "%s == 7" % szx, False)]
+        ctx.need(len(nonbert_size) == 1, "_extract_block: non-BERT size definition not found")
+        size_p = Nn.poly(nonbert_size[0].value)
+        ctx.ob("block size is 2**(SZX+4)", size_p == Nn.poly(ast.parse("2**(%s+4)" % szx, mode="eval").body), xb, nonbert_size[0], detail=repr(size_p), construct="_extract_block size: %s" % stmt_text(nonbert_size[0].value))
+        st_p = Normalizer(penv={Z: size_p}).poly(nonbert_start[0].value)
+    else:
+        Z = None
+        size_p = Nn.poly(ast.parse("2**(%s+4)" % szx, mode="eval").body)
+        st_p = Nn.poly(nonbert_start[0].value)
+    ctx.ob("block offset is NUM * 2**(SZX+4)", st_p == Poly.atom(num) * Nn.poly(ast.parse("2**(%s+4)" % szx, mode="eval").body), xb, nonbert_start[0], detail=repr(st_p), construct="_extract_block start: %s" % stmt_text(nonbert_start[0].value))
     raises = [n for n in walk_no_nested(xb.node) if isinstance(n, ast.Raise)]
     N2 = Normalizer()
     okr = False
     for r in raises:
         facts = cmp_guard_nf(xcfg, xcfg.loc1(r), N2)
         cls = EA._exc_class(xb, r.exc)
-        if ("lt", Poly.atom("len(self.payload)") - Poly.atom("start") - Poly.const(1)) in facts and cls == "aiocoap.error.BadRequest":
+        if ("lt", Poly.atom("len(self.payload)") - Poly.atom(S) - Poly.const(1)) in facts and cls == "aiocoap.error.BadRequest":
             okr = True
     ctx.ob("a block starting at or beyond the end of the body is answered 4.00", okr, xb, raises[0] if raises else xb.node, construct="_extract_block out-of-range guard")
-    end_defs = [n for n in walk_no_nested(xb.node) if isinstance(n, ast.Assign) and chain(n.targets[0]) == "end"]
-    more_defs = [n for n in walk_no_nested(xb.node) if isinstance(n, ast.Assign) and chain(n.targets[0]) == "more"]
+    end_defs = [n for n in writes_to_name(xb.node, E) if isinstance(n, ast.Assign)]
     oke = False
+    ss = Poly.atom(S) + (Poly.atom(Z) if Z else size_p)
+    ln = Poly.atom("len(self.payload)")
     if len(end_defs) == 1:
         v = end_defs[0].value
         mm = match("min($a, $b)", v)
         if mm is not None:
-            oke = {repr(N2.poly(mm["a"])), repr(N2.poly(mm["b"]))} == {repr(Poly.atom("start") + Poly.atom("size")), repr(Poly.atom("len(self.payload)"))}
+            oke = {repr(N2.poly(mm["a"])), repr(N2.poly(mm["b"]))} == {repr(ss), repr(ln)}
         elif isinstance(v, ast.IfExp):
             try:
                 t = N2.cmp(v.test)
                 a_, b__ = N2.poly(v.body), N2.poly(v.orelse)
-                ss, ln = Poly.atom("start") + Poly.atom("size"), Poly.atom("len(self.payload)")
-                if t == ("lt", ss - ln):
-                    oke = a_ == ss and b__ == ln
-                elif t == ("lt", ss - ln - Poly.const(1)):
+                if t == ("lt", ss - ln) or t == ("lt", ss - ln - Poly.const(1)):
                     oke = a_ == ss and b__ == ln
                 elif t == ("lt", ln - ss) or t == ("lt", ln - ss - Poly.const(1)):
                     oke = a_ == ln and b__ == ss
             except NormError:
                 oke = False
     ctx.ob("the slice ends at min(start + size, len(body))", oke, xb, end_defs[0] if end_defs else xb.node, construct="_extract_block end")
-    okm = False
-    if len(more_defs) == 1:
-        v = more_defs[0].value
-        if isinstance(v, ast.IfExp) and isinstance(v.body, ast.Constant) and v.body.value is True and isinstance(v.orelse, ast.Constant) and v.orelse.value is False:
-            v = v.test
-        try:
-            okm = N2.cmp(v) == ("lt", Poly.atom("end") - Poly.atom("len(self.payload)"))
-        except NormError:
-            okm = False
-    ctx.ob("the more-flag is set exactly when bytes remain after the slice (end < len(body))", okm, xb, more_defs[0] if more_defs else xb.node, construct="_extract_block more")
-    sl = [n for n in walk_no_nested(xb.node) if isinstance(n, ast.Assign) and match("self.payload[start:end]", n.value) is not None]
-    ctx.ob("the block payload is body[start:end]", len(sl) == 1, xb, sl[0] if sl else xb.node, construct="_extract_block slice")
-    bo = [n for n in walk_no_nested(xb.node) if isinstance(n, ast.Assign) and match("(%s, more, %s)" % (num, szx), n.value) is not None]
+    # the option tuple (number, M, size_exp)
+    bo = []
+    for n in walk_no_nested(xb.node):
+        if isinstance(n, ast.Tuple) and len(n.elts) == 3 and isinstance(n.elts[0], ast.Name) and n.elts[0].id == num and isinstance(n.elts[2], ast.Name) and n.elts[2].id == szx and isinstance(n.elts[1], ast.Name):
+            bo.append(n)
     ctx.ob("the block option of the answer is (NUM, more, SZX) as requested", len(bo) == 1, xb, bo[0] if bo else xb.node, construct="_extract_block option")
+    okm = False
+    more_defs = []
+    if bo:
+        M = bo[0].elts[1].id
+        more_defs = [n for n in writes_to_name(xb.node, M) if isinstance(n, ast.Assign)]
+        if len(more_defs) == 1:
+            v = more_defs[0].value
+            if isinstance(v, ast.IfExp) and isinstance(v.body, ast.Constant) and v.body.value is True and isinstance(v.orelse, ast.Constant) and v.orelse.value is False:
+                v = v.test
+            try:
+                okm = N2.cmp(v) == ("lt", Poly.atom(E) - ln)
+            except NormError:
+                okm = False
+    ctx.ob("the more-flag is set exactly when bytes remain after the slice (end < len(body))", okm, xb, more_defs[0] if more_defs else xb.node, construct="_extract_block more")
+    # the slice and the option reach the copy
+    cps = [c_ for c_ in calls_in(xb.node) if call_name(c_) == "self.copy"]
+    okc = bool(cps)
+    for c_ in cps:
+        pk = next((k.value for k in c_.keywords if k.arg == "payload"), None)
+        bk_ = [k.value for k in c_.keywords if k.arg in ("block1", "block2")]
+        okc = okc and pk is not None and resolve_local(xb.node, pk) is sl[0] and len(bk_) == 1 and bo and resolve_local(xb.node, bk_[0]) is bo[0]
+    ctx.ob("the answer carries body[start:end] and that block option", okc, xb, cps[0] if cps else xb.node, construct="_extract_block result")
 
 
 @R.clause("C06.g", "TimeoutDict: refreshed on get and set, expiry keeps exactly the recently used keys; lifetime is MAX_TRANSMIT_WAIT")
